@@ -18,11 +18,11 @@ def keyOps : List (String × String × String × List String × List String) := 
   ("jws", "RS384", "RSAAlgorithm", ["sign"], ["verify"]),
   ("jws", "RS512", "RSAAlgorithm", ["sign"], ["verify"]),
   ("jwe", "A128GCMKW", "AESGCMAlgorithm", ["wrapKey"], ["unwrapKey"]),
-  ("jwe", "A128KW", "AESAlgorithm", ["wrapKey"], ["wrapKey"]),
+  ("jwe", "A128KW", "AESAlgorithm", ["wrapKey"], ["unwrapKey"]),
   ("jwe", "A192GCMKW", "AESGCMAlgorithm", ["wrapKey"], ["unwrapKey"]),
-  ("jwe", "A192KW", "AESAlgorithm", ["wrapKey"], ["wrapKey"]),
+  ("jwe", "A192KW", "AESAlgorithm", ["wrapKey"], ["unwrapKey"]),
   ("jwe", "A256GCMKW", "AESGCMAlgorithm", ["wrapKey"], ["unwrapKey"]),
-  ("jwe", "A256KW", "AESAlgorithm", ["wrapKey"], ["wrapKey"]),
+  ("jwe", "A256KW", "AESAlgorithm", ["wrapKey"], ["unwrapKey"]),
   ("jwe", "ECDH-ES", "ECDHESAlgorithm", ["wrapKey"], []),
   ("jwe", "ECDH-ES+A128KW", "ECDHESAlgorithm", ["wrapKey"], []),
   ("jwe", "ECDH-ES+A192KW", "ECDHESAlgorithm", ["wrapKey"], []),
